@@ -267,9 +267,11 @@ func genFilter(t *rapid.T, col int) *Filter {
 }
 
 var docKinds = []string{"createOne", "createMany", "updateID", "updateFilter", "deleteID", "deleteFilter", "upsert"}
+
+// allKinds is the (weighted) list the operation under test is drawn from.
 var allKinds = []string{
-	"createOne", "createMany", "updateID", "updateFilter", "deleteID", "deleteFilter", "upsert",
-	"createIndex", "dropIndex", "addSchema", "patchSchema", "setActive", "import", "txn", "merge",
+	"createOne", "createMany", "updateID", "updateID", "updateFilter", "updateFilter", "deleteID", "deleteFilter", "deleteFilter", "upsert",
+	"createIndex", "dropIndex", "addSchema", "patchSchema", "setActive", "import", "txn", "txn", "merge", "merge", "merge",
 }
 
 // genOp draws one operation. depth > 0 restricts to plain document operations (inside txn/merge).
